@@ -24,7 +24,7 @@ import (
 
 func init() {
 	suites["qconc"] = suite{
-		rule: "staged episodes first (2/4/8 slots: every slot written and unanswered, writer parked in WaitForWrite on the oldest slot, 1-4 extra callers blocked on it, only then the reader starts; hang => ring:deadlock:full-ring-writer-parked), then real ring and flow buffer under P=1..32 caller goroutines x 2^k slots (k=1..6), one writer, one reader, PutOne/PutMulti mixed, random Gosched/sleep perturbation, GOMAXPROCS in {1,2,4,all} (thorough: more); one episode = one run, the linearised log is judged line by line by the FIFO specification; non-trivial = episode with more callers in flight than slots or more commands than slots (wrap-around); a watchdog reports hangs",
+		rule: "staged episodes first (2/4/8 slots: every slot written and unanswered, writer parked in WaitForWrite on the oldest slot, 1-4 extra callers blocked on it, only then the reader starts; hang => ring:deadlock:full-ring-writer-parked), then real ring and flow buffer under P=1..32 caller goroutines x 2^k slots (k=1..6), one writer, one reader, PutOne/PutMulti mixed, random Gosched/sleep perturbation, GOMAXPROCS in {1,2,4,all} (thorough: more); in half of the ring episodes (staged and random) the uint32 counters start just below 2^32 so that write/read1/read2 wrap while commands are queued or in flight; one episode = one run, the linearised log is judged line by line by the FIFO specification; non-trivial = episode with more callers in flight than slots or more commands than slots (wrap-around); a watchdog reports hangs",
 		run:  runConc,
 		replay: func(c *Ctx, lines []string) {
 			// a recorded history cannot be re-scheduled; it is re-judged as recorded
@@ -87,6 +87,9 @@ type concCfg struct {
 	// reader is allowed to answer anything: p = 2^k + extra callers, the first 2^k start at once
 	staged bool
 	extra  int
+	// ring only: the three free-running uint32 counters start at base (a ring that has already
+	// carried `base` commands), so that they wrap past 2^32 in the middle of the episode
+	base uint32
 }
 
 // stageInfo reports what a staged episode reached before the reader was released.
@@ -103,6 +106,9 @@ func runEpisode(cfg concCfg, seed uint64) (lines []string, hung bool, st stageIn
 	var q *rueidis.VerifQueue
 	if cfg.kind == "ring" {
 		q = rueidis.VerifNewRing(cfg.k)
+		if cfg.base != 0 {
+			q.RingSetCounters(cfg.base)
+		}
 	} else {
 		q = rueidis.VerifNewFlowBuffer(cfg.k)
 	}
@@ -260,7 +266,7 @@ func runEpisode(cfg concCfg, seed uint64) (lines []string, hung bool, st stageIn
 		if cfg.kind == "ring" {
 			st.tickets = waitFor(func() bool {
 				w, _, _, _, _ := q.RingSnapshot()
-				return int(w) >= first+cfg.extra
+				return int(w-cfg.base) >= first+cfg.extra
 			}, 100*time.Millisecond)
 		} else {
 			st.tickets = true
@@ -335,6 +341,15 @@ func overtakes(lines []string) map[int]bool {
 // evidence (`ring:realtime-overtake`); true: reported as a failing input with a stable key.
 const strictRealTime = false
 
+// wrapBase picks the start value of the ring counters: 0, or so close to 2^32 that the counters
+// wrap while commands are queued or in flight (within the first `total` commands).
+func wrapBase(c *Ctx, kind string, total int) uint32 {
+	if kind != "ring" || c.Rng.IntN(2) == 0 {
+		return 0
+	}
+	return uint32(0xffffffff - uint32(c.Rng.IntN(total+2)))
+}
+
 func countFins(lines []string) int {
 	n := 0
 	for _, l := range lines {
@@ -370,9 +385,13 @@ func runConc(c *Ctx) {
 		cfg.per = 1 + c.Rng.IntN(4)
 		cfg.multi = []int{0, 300}[c.Rng.IntN(2)]
 		cfg.procs = procsChoices[c.Rng.IntN(len(procsChoices))]
+		cfg.base = wrapBase(c, cfg.kind, 1<<uint(cfg.k)+cfg.extra)
 		seed := c.Rng.Uint64()
 		lines, hung, st := runEpisode(cfg, seed)
-		reset := fmt.Sprintf("reset conc %s staged k=%d extra=%d per=%d multi=%d procs=%d written=%d parked=%v tickets=%v", cfg.kind, cfg.k, cfg.extra, cfg.per, cfg.multi, cfg.procs, st.written, st.parked, st.tickets)
+		if cfg.base != 0 {
+			c.Hit("ring:staged:counters-wrap")
+		}
+		reset := fmt.Sprintf("reset conc %s staged base=%d k=%d extra=%d per=%d multi=%d procs=%d written=%d parked=%v tickets=%v", cfg.kind, cfg.base, cfg.k, cfg.extra, cfg.per, cfg.multi, cfg.procs, st.written, st.parked, st.tickets)
 		c.Emit(reset, "ok", false)
 		ot := overtakes(lines)
 		for i, l := range lines {
@@ -425,9 +444,13 @@ func runConc(c *Ctx) {
 		cfg.sleep = []int{0, 0, 20}[c.Rng.IntN(3)]
 		cfg.procs = procsChoices[c.Rng.IntN(len(procsChoices))]
 		cfg.serial = c.Rng.IntN(3) != 0
+		cfg.base = wrapBase(c, cfg.kind, cfg.p*cfg.per)
 		seed := c.Rng.Uint64()
 		lines, hung, _ := runEpisode(cfg, seed)
-		reset := fmt.Sprintf("reset conc %s k=%d p=%d per=%d multi=%d yield=%d sleep=%d procs=%d serial=%v", cfg.kind, cfg.k, cfg.p, cfg.per, cfg.multi, cfg.yield, cfg.sleep, cfg.procs, cfg.serial)
+		if cfg.base != 0 {
+			c.Hit("ring:counters-wrap")
+		}
+		reset := fmt.Sprintf("reset conc %s base=%d k=%d p=%d per=%d multi=%d yield=%d sleep=%d procs=%d serial=%v", cfg.kind, cfg.base, cfg.k, cfg.p, cfg.per, cfg.multi, cfg.yield, cfg.sleep, cfg.procs, cfg.serial)
 		c.Emit(reset, "ok", false)
 		ot := overtakes(lines)
 		for i, l := range lines {
